@@ -214,6 +214,7 @@ def mutate_formatted(d, ints):
 
 class C20Ecl(Check):
     ID = "C20"
+    REGRESS_PREFIX = "eclframe__"
     PROBE = "san"
     PROBE_GROUP = "deck"
     PROBE_ENV = {"OMP_NUM_THREADS": "1"}
